@@ -124,12 +124,6 @@ theorem opsOf_escFree (level : Nat) (f : FChunks) (h : fEscFree f = true) :
 
 /-! ### the sink -/
 
-/-- the tokens a sink produces for an operation stream -/
-def toksOfOps (colour : Bool) : Out → List Tok
-  | [] => []
-  | .ch c :: r => (utf8Char c).map Tok.byte ++ toksOfOps colour r
-  | .style s :: r => (if colour then [Tok.sgr s] else []) ++ toksOfOps colour r
-
 theorem sgrToks_append (a b : List Tok) : sgrToks (a ++ b) = sgrToks a ++ sgrToks b := by
   induction a with
   | nil => rfl
@@ -334,5 +328,196 @@ theorem toksOfOps_unformatted (colour : Bool) (level : Nat) (f : FChunks) (h : f
     obtain ⟨⟨⟨h1, h2⟩, h3⟩, h4⟩ := h
     simp [opsOf, FChunks.erase, specToks_append, toksOfOps_append, codeFmtOps_unformatted p _ h1 h2,
       ih1 h3, ih2 h4]
+
+end Log4rs.Console
+
+namespace Log4rs.Console
+open Log4rs Log4rs.Console.Spec
+open Log4rs.Pattern (Op Out Params codeFmtOps truncOps ofText fills)
+
+/-! ### the writer stack against the width law on streams (`fmtSpecOps`) -/
+
+theorem cutOps_eq_truncOps (M : Nat) (o : Out) : cutOps M o = truncOps M o := by
+  induction o generalizing M with
+  | nil => cases M <;> rfl
+  | cons x xs ih =>
+    cases x with
+    | style s => cases M <;> simp [cutOps, truncOps, ih]
+    | ch c => cases M <;> simp [cutOps, truncOps, ih]
+
+theorem truncOps_append (M : Nat) (a b : Out) :
+    truncOps M (a ++ b) = truncOps M a ++ truncOps (M - (Out.text a).length) b := by
+  induction a generalizing M with
+  | nil => simp [truncOps, Out.text]
+  | cons x xs ih =>
+    cases x with
+    | style s =>
+      cases M <;> simp [truncOps, ih, Pattern.text_cons_style]
+    | ch c =>
+      cases M with
+      | zero => simp [truncOps, ih, Pattern.text_cons_ch]
+      | succ M =>
+        simp only [List.cons_append, truncOps, ih, Pattern.text_cons_ch, List.length_cons]
+        congr 3
+        omega
+
+theorem truncOps_of_le (M : Nat) (o : Out) (h : (Out.text o).length ≤ M) : truncOps M o = o := by
+  induction o generalizing M with
+  | nil => cases M <;> rfl
+  | cons x xs ih =>
+    cases x with
+    | style s =>
+      rw [Pattern.text_cons_style] at h
+      cases M <;> simp [truncOps, ih _ h]
+    | ch c =>
+      rw [Pattern.text_cons_ch] at h
+      cases M with
+      | zero => simp at h
+      | succ M => simp only [truncOps]; rw [ih M (by simpa using h)]
+
+theorem truncOps_ofText (M : Nat) (cs : List Char) : truncOps M (ofText cs) = ofText (cs.take M) := by
+  have := Pattern.truncOps_ofText_append M cs []
+  simpa [truncOps] using this
+
+theorem truncOps_zero_text (o : Out) : Out.text (truncOps 0 o) = [] := by
+  rw [Pattern.text_truncOps]; rfl
+
+theorem length_fills (c : Char) (n : Nat) : (fills c n).length = n := by simp [fills]
+
+/-- For parameters with `m ≤ M` the writer stack (pad the uncut stream, then let the first M
+characters through) is the statement's law (cut, then pad the cut text), position by position,
+style requests included. -/
+theorem codeFmtOps_eq_fmtSpecOps (p : Params) (o : Out) (h : paramsOrdered p = true) :
+    codeFmtOps p o = fmtSpecOps p o := by
+  unfold codeFmtOps fmtSpecOps
+  unfold paramsOrdered at h
+  cases hm : p.minW with
+  | none => cases hM : p.maxW <;> simp [cutOps_eq_truncOps]
+  | some m =>
+    cases hM : p.maxW with
+    | none => simp
+    | some M =>
+      simp only [hm, hM, decide_eq_true_eq] at h
+      simp only [cutOps_eq_truncOps, Pattern.text_truncOps, List.length_take]
+      by_cases hn : (Out.text o).length ≤ M
+      · -- everything fits: nothing is cut, the padding is complete
+        have hmin : min M (Out.text o).length = (Out.text o).length := by omega
+        cases hr : p.right
+        · simp only [Bool.false_eq_true, if_false, hmin]
+          rw [truncOps_append, truncOps_of_le M o hn, truncOps_ofText]
+          congr 2
+          rw [List.take_of_length_le]
+          rw [length_fills]; omega
+        · simp only [if_true, hmin]
+          rw [truncOps_of_le M o hn, truncOps_append, truncOps_ofText, Pattern.text_ofText, length_fills,
+            truncOps_of_le _ o (by omega)]
+          congr 2
+          rw [List.take_of_length_le]
+          rw [length_fills]; omega
+      · -- the content alone exceeds M ≥ m: there is no padding on either side
+        have hmin : min M (Out.text o).length = M := by omega
+        have h1 : m - (Out.text o).length = 0 := by omega
+        have h2 : m - M = 0 := by omega
+        cases hr : p.right <;> simp [hmin, h1, h2, fills, ofText]
+
+theorem wrapHighlight_eq_specWrap (level : Nat) (o : Out) : wrapHighlight level o = specWrap level o := by
+  unfold wrapHighlight specWrap
+  cases highlightStyle level <;> simp
+
+/-- For `ordered` patterns the operations that reach the sink are the specified ones. -/
+theorem opsOf_eq_specOps (level : Nat) (f : FChunks) (h : fOrdered f = true) :
+    opsOf level f = specOps level f := by
+  induction f with
+  | nil => rfl
+  | text cs rest ih =>
+    simp only [fOrdered] at h
+    simp [opsOf, specOps, ih h]
+  | highlight p inner rest ih1 ih2 =>
+    simp only [fOrdered, Bool.and_eq_true] at h
+    simp [opsOf, specOps, ih1 h.1.2, ih2 h.2, codeFmtOps_eq_fmtSpecOps p _ h.1.1, wrapHighlight_eq_specWrap]
+  | group p inner rest ih1 ih2 =>
+    simp only [fOrdered, Bool.and_eq_true] at h
+    simp [opsOf, specOps, ih1 h.1.2, ih2 h.2, codeFmtOps_eq_fmtSpecOps p _ h.1.1]
+
+/-! ### the shape of one highlighted group under ARBITRARY parameters -/
+
+theorem truncOps_sublist (M : Nat) (o : Out) : (truncOps M o).Sublist o := by
+  induction o generalizing M with
+  | nil => cases M <;> simp [truncOps]
+  | cons x xs ih =>
+    cases x with
+    | style s => cases M <;> simp only [truncOps] <;> exact (ih _).cons_cons _
+    | ch c =>
+      cases M with
+      | zero => simp only [truncOps]; exact (ih 0).cons _
+      | succ M => simp only [truncOps]; exact (ih M).cons_cons _
+
+theorem fills_all (c : Char) (n : Nat) : ∀ x ∈ fills c n, x = c := by
+  intro x hx; simp [fills, List.mem_replicate] at hx; exact hx.2
+
+theorem take_fills_all (c : Char) (n k : Nat) : ∀ x ∈ (fills c n).take k, x = c :=
+  fun x hx => fills_all c n x (List.mem_of_mem_take hx)
+
+/-- `truncOps` of a bracketed stream: fill characters, the opening style, a cut of the content,
+the reset, fill characters -/
+theorem truncOps_bracket (M : Nat) (pre post : List Char) (st : Style) (x : Out) :
+    truncOps M (ofText pre ++ (Op.style st :: x ++ [Op.style Style.plain]) ++ ofText post) =
+      ofText (pre.take M) ++ (Op.style st :: truncOps (M - pre.length) x ++
+        Op.style Style.plain :: ofText (post.take (M - pre.length - (Out.text x).length))) := by
+  rw [List.append_assoc, Pattern.truncOps_ofText_append]
+  congr 1
+  simp only [List.cons_append, truncOps]
+  cases hM : M - pre.length <;>
+    simp only [truncOps, truncOps_append, List.append_assoc, List.cons_append, List.nil_append,
+      truncOps_ofText, Out.text] <;> rfl
+
+end Log4rs.Console
+
+namespace Log4rs.Console
+open Log4rs Log4rs.Console.Spec
+open Log4rs.Pattern (Op Out Params codeFmtOps truncOps ofText fills)
+
+theorem styles_truncOps (M : Nat) (o : Out) : Out.styles (truncOps M o) = Out.styles o := by
+  have := Pattern.C10_styles_preserved { maxW := some M } o
+  simpa [codeFmtOps] using this
+
+theorem mem_sgrToks (toks : List Tok) (s : Style) (h : Tok.sgr s ∈ toks) : s ∈ sgrToks toks := by
+  induction toks with
+  | nil => cases h
+  | cons t ts ih =>
+    cases t with
+    | byte b =>
+      simp only [List.mem_cons, reduceCtorEq, false_or] at h
+      exact ih h
+    | sgr s' =>
+      simp only [List.mem_cons, Tok.sgr.injEq] at h
+      simp only [sgrToks, List.mem_cons]
+      exact h.elim Or.inl (fun h => Or.inr (ih h))
+
+theorem render_no_esc (toks : List Tok) (hb : ∀ b, Tok.byte b ∈ toks → b ≠ 27)
+    (hs : ∀ s, Tok.sgr s ∈ toks → False) : ∀ b ∈ render toks, b ≠ 27 := by
+  induction toks with
+  | nil => simp [render]
+  | cons t ts ih =>
+    have ih' := ih (fun b h => hb b (List.mem_cons_of_mem _ h)) (fun s h => hs s (List.mem_cons_of_mem _ h))
+    cases t with
+    | byte x =>
+      intro b hbm
+      simp only [render, List.mem_cons] at hbm
+      rcases hbm with hbm | hbm
+      · subst hbm; exact hb b (List.mem_cons_self ..)
+      · exact ih' b hbm
+    | sgr s => exact absurd (List.mem_cons_self ..) (fun h => hs s h)
+
+theorem literalBytes_toksOfOps (colour : Bool) (o : Out) :
+    literalBytes (toksOfOps colour o) = utf8 (Out.text o) := by
+  induction o with
+  | nil => rfl
+  | cons x xs ih =>
+    cases x with
+    | ch c =>
+      simp only [toksOfOps, literalBytes_append, literalBytes_bytes, ih, Pattern.text_cons_ch, utf8_cons]
+    | style s =>
+      cases colour <;> simp [toksOfOps, literalBytes, ih, Pattern.text_cons_style]
 
 end Log4rs.Console
